@@ -25,7 +25,7 @@ func init() {
 		Assumptions: []string{"the table of inverse pairs of the Go standard library in rules/c19.go", "snake_case builtin names map to CamelCase Go names"},
 		Rules: []*core.Rule{
 			{ID: "C19-R1", Title: "wrappers call their Go namesake with arguments in order", Floor: 25, Run: c19r1},
-			{ID: "C19-R2", Title: "wrappers do not pre-validate what Go validates", Floor: 10, Run: c19r2},
+			{ID: "C19-R2", Title: "wrappers do not pre-validate what Go validates", Floor: 5, Run: c19r2},
 			{ID: "C19-R3", Title: "codecs pair known inverse functions over the whole input", Floor: 5, Run: c19r3},
 			{ID: "C19-R4", Title: "string methods return their Go namesake's result on every path", Floor: 8, Run: c19r4},
 			{ID: "C19-R5", Title: "encoders return storage of their own (nothing taken from and returned to a pool)", Floor: 1, Run: func(c *core.Ctx) { pooledResult(c) }},
